@@ -233,3 +233,5 @@ m("C14-revert-D29-frame-index-scaled-by-time-scale", "C14", "import_export/_vali
   "    scale = [1.0, *scale[1:]]\n", "")
 m("C11-revert-D28-half-added-node-stays", "C11", "actions/add_delete_node.py",
   "            self.tracks.graph.remove_node(self.node)\n            if self.pixels is not None:\n                self.tracks.set_pixels(self.pixels, 0)\n            raise", "            raise")
+m("C15-revert-D30-ndarray-position-refused-by-display-names-export", "C15", "import_export/csv/_export.py",
+  "                    assert isinstance(value, (list, tuple, np.ndarray))", "                    assert isinstance(value, (list, tuple))")
